@@ -26,6 +26,13 @@ BUDGET = {
 }
 
 
+GRID_DESC = "deterministic large-piece cases: piece length 2 MiB and 32 MiB with files of 1..17 MiB (sizes around 1 MiB / 16 MiB inside one piece), v1/v2/hybrid"
+
+
+def grid(tier):
+    return rk.big_piece_grid(True)
+
+
 def strategy(tier):
     return rk.case_strategy(tier, trees.MODES_NZ, 1, 4)
 
